@@ -425,6 +425,8 @@ PROPS["C12"] = {
         J(c12 + "Conc", threads=2, ops=2, opset=1, cfg={"Preempt": 2, "Witnesses": 0, "MaxPaths": 80000000}, map_order="insertion"),
     ],
     "thorough": [
+        J(c12 + "Conc", threads=2, ops=1, opset=0, fullinit=1, cfg={"Preempt": 3, "Witnesses": 0, "MaxPaths": 80000000}, map_order="insertion"),
+        J(c12 + "Conc", threads=3, ops=1, opset=1, cfg={"Preempt": 2, "Witnesses": 0, "MaxPaths": 80000000}, map_order="insertion"),
         J(c12 + "Conc", threads=3, ops=1, opset=0, cfg={"Preempt": 2, "Witnesses": 0, "MaxPaths": 80000000}, map_order="insertion"),
         J(c12 + "Conc", threads=2, ops=2, opset=0, cfg={"Preempt": 2, "Witnesses": 0, "MaxPaths": 80000000}, map_order="insertion"),
         J(c12 + "Conc", threads=2, ops=1, opset=0, cfg={"Preempt": 3, "Witnesses": 0}, map_order="two"),
